@@ -96,6 +96,18 @@ let () = read_lines (fun l ->
                let p' = List.mapi (fun idx b -> match List.assoc_opt idx muts with Some v -> zi v | None -> b) p in
                (* later assignments win, as in the harness *)
                let p' = List.mapi (fun idx b -> match List.filter (fun (o, _) -> o = idx) muts with [] -> b | l -> zi (snd (List.nth l (List.length l - 1)))) p' in
+               (* "<off>~<delta>": the 32-bit big-endian field at off decreased by delta, applied in order after the byte assignments *)
+               let subs = (match String.index_opt arg ':' with
+                 | Some k -> List.filter_map (fun m -> match String.split_on_char '~' m with [o; v] -> Some (int_of_string o, int_of_string v) | _ -> None)
+                               (String.split_on_char ',' (String.sub arg (k + 1) (String.length arg - k - 1)))
+                 | None -> []) in
+               let p' = List.fold_left (fun pk (off, d) ->
+                   if off + 4 <= List.length pk then begin
+                     let a = Array.of_list (List.map iz pk) in
+                     let f = ((a.(off) lsl 24) lor (a.(off+1) lsl 16) lor (a.(off+2) lsl 8) lor a.(off+3)) in
+                     let f = (f - d) land 0xffffffff in
+                     a.(off) <- (f lsr 24) land 255; a.(off+1) <- (f lsr 16) land 255; a.(off+2) <- (f lsr 8) land 255; a.(off+3) <- f land 255;
+                     List.map zi (Array.to_list a) end else pk) p' subs in
                exec w (notify_packet p' znow) (fun b -> Printf.sprintf "=%d" (b2i b)) end
              else add "=x")
        | 'i' -> exec w (notify_packet (bytes_of_hex arg) znow) (fun b -> Printf.sprintf "=%d" (b2i b))
